@@ -28,146 +28,230 @@ Proof. intros H. apply without_absent. now apply none_named_values. Qed.
 Definition te_chunked : wfield :=
   {| wf_name := K_TE; wf_pre := [SP]; wf_value := bs "chunked"; wf_post := [] |}.
 
-Section Cross.
-  Variable a : aresp.
-  Variable fs : list wfield.            (* the end-to-end fields as written on an HTTP/1.1 wire *)
-  Variable cs : list (bytes * bytes).   (* HTTP/1.1 chunks *)
-  Variable l0 : bytes.                  (* last-chunk size line *)
-  Variable fr : list h2frame.           (* HTTP/2 DATA frames (any padding), all but the last *)
-  Variable last : h2frame.
-  Variable parts : list bytes.          (* HTTP/3 DATA frames *)
-  Variable m : mode.
-  Variable sizes : list nat.
+(* ---------- header multimaps built by Header.Add have distinct keys ---------- *)
 
-  Hypothesis Hcode : (100 <= a_code a <= 999)%Z.
-  Hypothesis Hallow : body_allowed_for_status (a_code a) = true.
-  Hypothesis Hreason : reason_ok (a_reason a) = true.
-  Hypothesis Hfs : fields_ok fs.
-  Hypothesis Hfields : map field_of fs = a_fields a.
-  Hypothesis He2e : end_to_end (a_fields a) = true.
-  Hypothesis Hchunks : chunks_ok br_size 0 cs.
-  Hypothesis Hl0 : size_line_ok br_size l0 0.
-  Hypothesis Hb1 : concat (map snd cs) = a_body a.
-  Hypothesis Hopen : open_frames fr.
-  Hypothesis Hlast : fd_end last = true.
-  Hypothesis Hb2 : payload (fr ++ [last]) = a_body a.
-  Hypothesis Hb3 : concat parts = a_body a.
+Definition keys (m : hmap) : list bytes := map fst m.
 
-  Let expected : api_obs := run_mode m (a_code a) sizes {| rd_rem := a_body a; rd_end := BEof |}.
+Lemma hget_none_notin k m : ~ In k (keys m) -> hget k m = None.
+Proof.
+  induction m as [|[k0 vs] m IH]; cbn [keys map fst hget In]; [reflexivity|]. intros H.
+  destruct (bytes_eqb k k0) eqn:E.
+  - apply bytes_eqb_eq in E. subst. exfalso. apply H. now left.
+  - apply IH. intros Hin. apply H. now right.
+Qed.
 
-  Let h1_wire : bytes :=
-    render_head (a_code a) (a_reason a) (fs ++ [te_chunked]) ++
-    H1Render.render_chunks cs ++ l0 ++ H1Render.CRLF ++ render_wfields [] ++ H1Render.CRLF ++ [].
+Lemma hset_fresh k vs m : hget k m = None -> hset k vs m = m ++ [(k, vs)].
+Proof.
+  induction m as [|[k0 vs0] m IH]; cbn [hget hset app]; [reflexivity|].
+  destruct (bytes_eqb k k0); [discriminate|]. intros H. now rewrite IH.
+Qed.
 
-  Lemma tokens : token_names (a_fields a).
-  Proof.
-    rewrite <- Hfields. apply Forall_forall. intros f Hf. apply in_map_iff in Hf as (w & <- & Hw).
-    unfold fields_ok in Hfs. rewrite Forall_forall in Hfs.
-    destruct (wfield_ok_parts w (Hfs w Hw)) as (_ & Ht & _). exact Ht.
-  Qed.
+Lemma set_all_nodup m : forall acc, NoDup (keys (acc ++ m)) -> set_all acc m = acc ++ m.
+Proof.
+  induction m as [|[k vs] m IH]; intros acc H.
+  - cbn. now rewrite app_nil_r.
+  - unfold set_all. cbn [fold_left fst snd]. fold (set_all (hset k vs acc) m).
+    assert (Hk : ~ In k (keys acc)).
+    { unfold keys in H. rewrite map_app in H. cbn [map fst] in H.
+      apply NoDup_remove_2 in H. intros Hin. apply H. apply in_or_app. now left. }
+    rewrite hset_fresh by (now apply hget_none_notin).
+    rewrite IH; [now rewrite <- app_assoc|]. now rewrite <- app_assoc.
+Qed.
 
-  Lemma not_1xx : is_1xx_nonterminal (a_code a) = false.
-  Proof.
-    unfold is_1xx_nonterminal. unfold body_allowed_for_status in Hallow.
-    apply negb_true_iff in Hallow. apply orb_false_iff in Hallow as [H _].
-    apply orb_false_iff in H as [H _]. now rewrite H.
-  Qed.
+Lemma in_keys_hadd x k v m : In x (keys (hadd k v m)) -> x = k \/ In x (keys m).
+Proof.
+  induction m as [|[k0 vs] m IH]; cbn [hadd keys map fst In].
+  - intros [->|[]]. now left.
+  - destruct (bytes_eqb k k0); cbn [keys map fst In].
+    + intros [->|H]; [right; now left|right; now right].
+    + intros [->|H]; [right; now left|]. destruct (IH H) as [->|H']; [now left|right; now right].
+Qed.
 
-  Theorem h1_view :
-    exists r b,
-      h1_exchange (bs "GET") m sizes h1_wire = Some {| d_resp := r; d_body := b; d_api := expected |} /\
-      r_code r = a_code a /\ r_header r = collect (a_fields a) /\ b_trailer b = [] /\
-      b_data b = a_body a.
-  Proof.
-    set (F := map field_of (fs ++ [te_chunked])).
-    assert (EF : F = a_fields a ++ [(K_TE, bs "chunked")]).
-    { unfold F. rewrite map_app, Hfields. reflexivity. }
-    assert (Nte := end_to_end_named K_TE _ eq_refl He2e).
-    assert (Ncl := end_to_end_named K_CL _ eq_refl He2e).
-    assert (Ntr := end_to_end_named K_TRAILER _ eq_refl He2e).
-    assert (Nco := end_to_end_named K_CONNECTION _ eq_refl He2e).
-    assert (Npr := end_to_end_named K_PRAGMA _ eq_refl He2e).
-    assert (Vte : values_of K_TE F = [bs "chunked"]).
-    { rewrite EF, values_of_app, (none_named_values _ _ Nte). reflexivity. }
-    assert (Vcl : no_field K_CL F).
-    { unfold no_field. rewrite EF, values_of_app, (none_named_values _ _ Ncl). reflexivity. }
-    assert (Vtr : values_of K_TRAILER F = []).
-    { rewrite EF, values_of_app, (none_named_values _ _ Ntr). reflexivity. }
-    assert (Vco : values_of K_CONNECTION F = []).
-    { rewrite EF, values_of_app, (none_named_values _ _ Nco). reflexivity. }
-    assert (Vpr : values_of K_PRAGMA F = []).
-    { rewrite EF, values_of_app, (none_named_values _ _ Npr). reflexivity. }
-    assert (Hok : fields_ok (fs ++ [te_chunked])).
-    { apply Forall_app. split; [exact Hfs|]. constructor; [reflexivity|constructor]. }
-    assert (Hbad : existsb bad_trailer_key (declared_keys F) = false).
-    { unfold declared_keys. rewrite Vtr. reflexivity. }
-    pose proof (h1_chunked_round_trip (bs "GET") br_size (a_code a) (a_reason a) (fs ++ [te_chunked])
-                  Hcode Hreason Hok (pragma_neutral_no_pragma _ Vpr) [] (bs "chunked") cs l0 []
-                  eq_refl Hallow Vte eq_refl Vcl Hbad Hchunks Hl0 (Forall_nil _) (or_introl eq_refl)) as P.
-    fold F in P.
-    eexists. eexists. split.
-    - unfold h1_wire. pose proof (h1_delivery (bs "GET") m sizes [] _ _ _ (Forall_nil _) ltac:(cbn; lia) P) as D.
-      cbn [render_interims flat_map app] in D. rewrite D by (cbn [r_code]; apply not_1xx).
-      cbn [r_code body_reader b_data b_end berr_clean]. unfold expected. rewrite Hb1. reflexivity.
-    - cbn [r_code r_header b_trailer b_data].
-      split; [reflexivity|]. split; [|split; [|first [reflexivity|exact Hb1]]].
-      + unfold after_conn, wants_close, conn_values. rewrite Vco. cbn [header_values_contain_token existsb].
-        rewrite EF, !without_app, (none_named_without _ _ Nte), (none_named_without _ _ Ntr).
-        cbn. now rewrite app_nil_r.
-      + unfold declared_trailer, declared_keys. rewrite Vtr. reflexivity.
-  Qed.
+Lemma hadd_nodup k v m : NoDup (keys m) -> NoDup (keys (hadd k v m)).
+Proof.
+  induction m as [|[k0 vs] m IH]; cbn [hadd keys map fst]; intros H.
+  - constructor; [intros []|constructor].
+  - destruct (bytes_eqb k k0) eqn:E; cbn [keys map fst]; [exact H|].
+    inversion H as [|? ? Hn Hd]; subst. constructor; [|now apply IH].
+    intros Hin. destruct (in_keys_hadd _ _ _ _ Hin) as [->|H']; [|contradiction].
+    rewrite bytes_eqb_refl in E. discriminate.
+Qed.
 
-  Theorem h2_view :
+Lemma collect_from_nodup fs : forall m, NoDup (keys m) -> NoDup (keys (collect_from m fs)).
+Proof.
+  induction fs as [|f fs IH]; intros m H; [exact H|]. cbn [collect_from fold_left].
+  apply IH. now apply hadd_nodup.
+Qed.
+
+(* copyTrailers on top of an empty announcement = the trailer multimap itself *)
+Lemma set_all_collect T : set_all [] (collect T) = collect T.
+Proof. apply set_all_nodup. cbn [app]. apply collect_from_nodup. constructor. Qed.
+
+(* ---------- one abstract response over the three protocols ---------- *)
+
+Definition expected_api (a : aresp) (m : mode) (sizes : list nat) : api_obs :=
+  run_mode m (a_code a) sizes {| rd_rem := a_body a; rd_end := BEof |}.
+
+(* well-formed abstract response with a body: any three-digit status that allows one, any
+   end-to-end header fields (written on the HTTP/1.1 wire as [fs], any optional whitespace),
+   any trailer fields (written as [tfs]), any body *)
+Definition aresp_ok (a : aresp) (fs tfs : list wfield) : Prop :=
+  (100 <= a_code a <= 999)%Z /\ body_allowed_for_status (a_code a) = true /\
+  reason_ok (a_reason a) = true /\
+  fields_ok fs /\ map field_of fs = a_fields a /\ end_to_end (a_fields a) = true /\
+  fields_ok tfs /\ map field_of tfs = a_trailers a.
+
+Lemma tokens_of fs F : fields_ok fs -> map field_of fs = F -> token_names F.
+Proof.
+  intros Hfs <-. apply Forall_forall. intros f Hf. apply in_map_iff in Hf as (w & <- & Hw).
+  unfold fields_ok in Hfs. rewrite Forall_forall in Hfs.
+  destruct (wfield_ok_parts w (Hfs w Hw)) as (_ & Ht & _). exact Ht.
+Qed.
+
+Lemma allowed_not_1xx code : body_allowed_for_status code = true ->
+  ((100 <=? code)%Z && (code <=? 199)%Z) = false /\ (code =? 204)%Z = false.
+Proof.
+  unfold body_allowed_for_status. intros H. apply negb_true_iff in H.
+  apply orb_false_iff in H as [H _]. apply orb_false_iff in H as [H1 H2]. auto.
+Qed.
+
+Lemma atoi_code_text code : (100 <= code <= 999)%Z -> atoi (code_text code) = Some code.
+Proof.
+  intros Hc. pose proof (code_ok_all _ Hc) as Ok. unfold code_ok in Ok.
+  apply andb_true_iff in Ok as [Ok _]. apply andb_true_iff in Ok as [Ok _].
+  apply andb_true_iff in Ok as [_ Hat].
+  destruct (atoi (code_text code)) as [n|]; [|discriminate]. apply Z.eqb_eq in Hat. now subst.
+Qed.
+
+(* HTTP/1.1: chunked with ANY partition / size-line spelling, trailer section *)
+Theorem cross_h1 a fs tfs cs l0 m sizes :
+  aresp_ok a fs tfs ->
+  chunks_ok br_size 0 cs -> size_line_ok br_size l0 0 -> concat (map snd cs) = a_body a ->
+  trailer_fits br_size tfs ->
+  exists r b,
+    h1_exchange (bs "GET") m sizes
+      (render_head (a_code a) (a_reason a) (fs ++ [te_chunked]) ++ H1Render.render_chunks cs ++
+       l0 ++ H1Render.CRLF ++ render_wfields tfs ++ H1Render.CRLF ++ []) =
+      Some {| d_resp := r; d_body := b; d_api := expected_api a m sizes |} /\
+    r_code r = a_code a /\ r_header r = collect (a_fields a) /\
+    b_trailer b = collect (a_trailers a) /\ b_data b = a_body a.
+Proof.
+  intros (Hcode & Hallow & Hreason & Hfs & Hfields & He2e & Htfs & Htr) Hchunks Hl0 Hb1 Hfit.
+  set (F := map field_of (fs ++ [te_chunked])).
+  assert (EF : F = a_fields a ++ [(K_TE, bs "chunked")]).
+  { unfold F. rewrite map_app, Hfields. reflexivity. }
+  assert (Nte := end_to_end_named K_TE _ eq_refl He2e).
+  assert (Ncl := end_to_end_named K_CL _ eq_refl He2e).
+  assert (Ntr := end_to_end_named K_TRAILER _ eq_refl He2e).
+  assert (Nco := end_to_end_named K_CONNECTION _ eq_refl He2e).
+  assert (Npr := end_to_end_named K_PRAGMA _ eq_refl He2e).
+  assert (Vte : values_of K_TE F = [bs "chunked"]).
+  { rewrite EF, values_of_app, (none_named_values _ _ Nte). reflexivity. }
+  assert (Vcl : no_field K_CL F).
+  { unfold no_field. rewrite EF, values_of_app, (none_named_values _ _ Ncl). reflexivity. }
+  assert (Vtr : values_of K_TRAILER F = []).
+  { rewrite EF, values_of_app, (none_named_values _ _ Ntr). reflexivity. }
+  assert (Vco : values_of K_CONNECTION F = []).
+  { rewrite EF, values_of_app, (none_named_values _ _ Nco). reflexivity. }
+  assert (Vpr : values_of K_PRAGMA F = []).
+  { rewrite EF, values_of_app, (none_named_values _ _ Npr). reflexivity. }
+  assert (Hok : fields_ok (fs ++ [te_chunked])).
+  { apply Forall_app. split; [exact Hfs|]. constructor; [reflexivity|constructor]. }
+  assert (Hbad : existsb bad_trailer_key (declared_keys F) = false).
+  { unfold declared_keys. rewrite Vtr. reflexivity. }
+  pose proof (h1_chunked_round_trip (bs "GET") br_size (a_code a) (a_reason a) (fs ++ [te_chunked])
+                Hcode Hreason Hok (pragma_neutral_no_pragma _ Vpr) tfs (bs "chunked") cs l0 []
+                eq_refl Hallow Vte eq_refl Vcl Hbad Hchunks Hl0 Htfs Hfit) as P.
+  fold F in P.
+  assert (N1 : is_1xx_nonterminal (a_code a) = false).
+  { unfold is_1xx_nonterminal. destruct (allowed_not_1xx _ Hallow) as [-> _]. reflexivity. }
+  eexists. eexists. split.
+  - pose proof (h1_delivery (bs "GET") m sizes [] _ _ _ (Forall_nil _) ltac:(cbn; lia) P) as D.
+    cbn [render_interims flat_map app] in D. rewrite D by (cbn [r_code]; exact N1).
+    cbn [r_code body_reader b_data b_end berr_clean]. unfold expected_api. rewrite Hb1. reflexivity.
+  - cbn [r_code r_header b_trailer b_data].
+    split; [reflexivity|]. split; [|split; [|first [reflexivity|exact Hb1]]].
+    + unfold after_conn, wants_close, conn_values. rewrite Vco. cbn [header_values_contain_token existsb].
+      rewrite EF, !without_app, (none_named_without _ _ Nte), (none_named_without _ _ Ntr).
+      cbn. now rewrite app_nil_r.
+    + unfold declared_trailer, declared_keys. rewrite Vtr. cbn [flat_map map fold_left merge_set_header is_nil].
+      now rewrite Htr.
+Qed.
+
+(* HTTP/2: ANY DATA partition with ANY padding, END_STREAM on the trailer block *)
+Theorem cross_h2 a fs tfs fr m sizes :
+  aresp_ok a fs tfs -> open_frames fr -> payload fr = a_body a ->
+  h2_exchange false
+    [{| hh_status := code_text (a_code a); hh_fields := lower_fields (a_fields a); hh_end := false |}]
+    fr (Some (lower_fields (a_trailers a))) m sizes =
+  Some {| m_code := a_code a; m_header := collect (a_fields a); m_cl := -1;
+          m_trailer := collect (a_trailers a); m_api := expected_api a m sizes |}.
+Proof.
+  intros (Hcode & Hallow & Hreason & Hfs & Hfields & He2e & Htfs & Htr) Hopen Hb2.
+  unfold h2_exchange. cbn [h2_final hh_status hh_end hh_fields]. rewrite atoi_code_text by assumption.
+  destruct (allowed_not_1xx _ Hallow) as [Hn H204]. rewrite Hn. cbn [hh_status hh_end hh_fields].
+  rewrite h2_header_collect; [|apply (tokens_of fs _ Hfs Hfields)|apply (end_to_end_named K_TRAILER _ eq_refl He2e)].
+  unfold h2_content_length. rewrite hget_collect.
+  rewrite (none_named_values _ _ (end_to_end_named K_CL _ eq_refl He2e)).
+  cbn [andb negb Z.ltb Z.compare]. cbn [Z.to_N].
+  rewrite h2_body_concat_trailers; [|assumption|now left].
+  cbn [h2err_clean andb negb]. rewrite add_all_collect by (apply (tokens_of tfs _ Htfs Htr)).
+  rewrite set_all_collect. unfold expected_api. rewrite Hb2. reflexivity.
+Qed.
+
+(* HTTP/3: ANY DATA partition, trailer section, FIN *)
+Theorem cross_h3 a fs tfs parts m sizes :
+  aresp_ok a fs tfs -> concat parts = a_body a ->
+  h3_exchange false
+    [{| h3_status := code_text (a_code a); h3_flds := lower_fields (a_fields a) |}]
+    parts (Some (lower_fields (a_trailers a))) m sizes =
+  Some {| m_code := a_code a; m_header := collect (a_fields a); m_cl := -1;
+          m_trailer := collect (a_trailers a); m_api := expected_api a m sizes |}.
+Proof.
+  intros (Hcode & Hallow & Hreason & Hfs & Hfields & He2e & Htfs & Htr) Hb3.
+  unfold h3_exchange. cbn [h3_final h3_status h3_flds]. rewrite atoi_code_text by assumption.
+  destruct (allowed_not_1xx _ Hallow) as [Hn H204]. rewrite Hn. cbn [andb h3_status h3_flds].
+  rewrite h3_header_collect; [|apply (tokens_of fs _ Hfs Hfields)|apply (end_to_end_named K_CL _ eq_refl He2e)
+                              |apply (end_to_end_named K_TRAILER _ eq_refl He2e)].
+  cbn [Z.ltb Z.compare andb orb Z.eqb].
+  assert (H12 : ((100 <=? a_code a)%Z && (a_code a <? 200)%Z) = false).
+  { destruct (Z.leb_spec 100 (a_code a)); destruct (Z.ltb_spec (a_code a) 200); try reflexivity.
+    destruct (Z.leb_spec (a_code a) 199); [discriminate Hn|lia]. }
+  rewrite H12, H204. cbn [orb andb].
+  rewrite h3_body_concat by (now left). cbn [h3err_clean].
+  rewrite add_all_collect by (apply (tokens_of tfs _ Htfs Htr)).
+  unfold expected_api. rewrite Hb3. reflexivity.
+Qed.
+
+(* cross_protocol_response: the three deliveries of one abstract response coincide *)
+Theorem cross_protocol_response a fs tfs cs l0 fr parts m sizes :
+  aresp_ok a fs tfs ->
+  chunks_ok br_size 0 cs -> size_line_ok br_size l0 0 -> concat (map snd cs) = a_body a ->
+  trailer_fits br_size tfs ->
+  open_frames fr -> payload fr = a_body a -> concat parts = a_body a ->
+  exists r b d2 d3,
+    h1_exchange (bs "GET") m sizes
+      (render_head (a_code a) (a_reason a) (fs ++ [te_chunked]) ++ H1Render.render_chunks cs ++
+       l0 ++ H1Render.CRLF ++ render_wfields tfs ++ H1Render.CRLF ++ []) =
+      Some {| d_resp := r; d_body := b; d_api := expected_api a m sizes |} /\
     h2_exchange false
       [{| hh_status := code_text (a_code a); hh_fields := lower_fields (a_fields a); hh_end := false |}]
-      (fr ++ [last]) None m sizes =
-    Some {| m_code := a_code a; m_header := collect (a_fields a); m_cl := -1; m_trailer := [];
-            m_api := expected |}.
-  Proof.
-    pose proof (code_ok_all _ Hcode) as Ok. unfold code_ok in Ok.
-    apply andb_true_iff in Ok as [Ok _]. apply andb_true_iff in Ok as [Ok _].
-    apply andb_true_iff in Ok as [_ Hat].
-    destruct (atoi (code_text (a_code a))) as [n|] eqn:Ea; [|discriminate]. apply Z.eqb_eq in Hat. subst n.
-    unfold h2_exchange. cbn [h2_final hh_status hh_end hh_fields]. rewrite Ea.
-    pose proof not_1xx as N1. unfold is_1xx_nonterminal in N1.
-    assert (Hn : ((100 <=? a_code a)%Z && (a_code a <=? 199)%Z) = false).
-    { unfold body_allowed_for_status in Hallow. apply negb_true_iff in Hallow.
-      apply orb_false_iff in Hallow as [H _]. apply orb_false_iff in H as [H _]. exact H. }
-    rewrite Hn. cbn [hh_status hh_end hh_fields].
-    rewrite h2_header_collect; [|apply tokens|apply (end_to_end_named K_TRAILER _ eq_refl He2e)].
-    unfold h2_content_length. rewrite hget_collect.
-    rewrite (none_named_values _ _ (end_to_end_named K_CL _ eq_refl He2e)).
-    cbn [andb negb Z.ltb Z.compare]. cbn [Z.to_N].
-    rewrite h2_body_concat; [|assumption|assumption|now left].
-    cbn [h2err_clean]. unfold expected. rewrite Hb2. reflexivity.
-  Qed.
-
-  Theorem h3_view :
+      fr (Some (lower_fields (a_trailers a))) m sizes = Some d2 /\
     h3_exchange false
       [{| h3_status := code_text (a_code a); h3_flds := lower_fields (a_fields a) |}]
-      parts None m sizes =
-    Some {| m_code := a_code a; m_header := collect (a_fields a); m_cl := -1; m_trailer := [];
-            m_api := expected |}.
-  Proof.
-    pose proof (code_ok_all _ Hcode) as Ok. unfold code_ok in Ok.
-    apply andb_true_iff in Ok as [Ok _]. apply andb_true_iff in Ok as [Ok _].
-    apply andb_true_iff in Ok as [_ Hat].
-    destruct (atoi (code_text (a_code a))) as [n|] eqn:Ea; [|discriminate]. apply Z.eqb_eq in Hat. subst n.
-    unfold h3_exchange. cbn [h3_final h3_status h3_flds]. rewrite Ea.
-    assert (Hn : ((100 <=? a_code a)%Z && (a_code a <=? 199)%Z) = false).
-    { unfold body_allowed_for_status in Hallow. apply negb_true_iff in Hallow.
-      apply orb_false_iff in Hallow as [H _]. apply orb_false_iff in H as [H _]. exact H. }
-    rewrite Hn. cbn [andb h3_status h3_flds].
-    rewrite h3_header_collect; [|apply tokens|apply (end_to_end_named K_CL _ eq_refl He2e)
-                                |apply (end_to_end_named K_TRAILER _ eq_refl He2e)].
-    cbn [Z.ltb Z.compare andb orb Z.eqb].
-    assert (H204 : (a_code a =? 204)%Z = false).
-    { unfold body_allowed_for_status in Hallow. apply negb_true_iff in Hallow.
-      apply orb_false_iff in Hallow as [H _]. apply orb_false_iff in H as [_ H]. exact H. }
-    assert (H12 : ((100 <=? a_code a)%Z && (a_code a <? 200)%Z) = false).
-    { destruct (Z.leb_spec 100 (a_code a)); destruct (Z.ltb_spec (a_code a) 200); try reflexivity.
-      destruct (Z.leb_spec (a_code a) 199); [discriminate Hn|lia]. }
-    rewrite H12, H204. cbn [orb andb].
-    rewrite h3_body_concat by (now left). cbn [h3err_clean]. unfold expected. rewrite Hb3. reflexivity.
-  Qed.
-End Cross.
+      parts (Some (lower_fields (a_trailers a))) m sizes = Some d3 /\
+    (* status *)  r_code r = a_code a /\ m_code d2 = a_code a /\ m_code d3 = a_code a /\
+    (* header *)  r_header r = collect (a_fields a) /\ m_header d2 = collect (a_fields a) /\
+                  m_header d3 = collect (a_fields a) /\
+    (* trailer *) b_trailer b = collect (a_trailers a) /\ m_trailer d2 = collect (a_trailers a) /\
+                  m_trailer d3 = collect (a_trailers a) /\
+    (* body through the read mode *)
+                  m_api d2 = expected_api a m sizes /\ m_api d3 = expected_api a m sizes.
+Proof.
+  intros Hok Hc Hl Hb1 Hfit Ho Hb2 Hb3.
+  destruct (cross_h1 a fs tfs cs l0 m sizes Hok Hc Hl Hb1 Hfit) as (r & b & E1 & R1 & R2 & R3 & _).
+  exists r, b. eexists. eexists.
+  split; [exact E1|]. split; [apply (cross_h2 a fs tfs fr m sizes Hok Ho Hb2)|].
+  split; [apply (cross_h3 a fs tfs parts m sizes Hok Hb3)|].
+  cbn [m_code m_header m_trailer m_api]. repeat split; assumption.
+Qed.
